@@ -77,3 +77,28 @@ MANIFEST_TEXT = {
 
 _PENDING = "check not built yet in this session (planned, see DESIGN.md section 6); listed here so that the manifest never claims an unbuilt check"
 NOT_APPLICABLE = [{"property_id": "C%02d" % i, "reason": _PENDING} for i in range(1, 18) if "C%02d" % i not in CHECKS]
+
+CHECKS["C04"] = {
+    "test": "TestC04",
+    "quick": {"shards": 8, "checks": 6000},
+    "thorough": {"shards": 16, "checks": 60000},
+    "rule": "a small real forest (0..6 generated blocks) gives the state for Pollard.Verify, MapPollard.Verify and VerifyPartialProof (generated TotalRows, "
+            "full/partial, remember on/off); Verify and Stump.Update get that stump, or the same forest embedded at the low end of a stump with up to 2^62+.. "
+            "leaves (fresh roots for the high trees), or a synthetic stump (NumLeaves from boundary constants / random 64-bit values <= 2^63, roots from "
+            "{true node hashes, leaves, fresh, zero}). The claim is an honest proof put through 1-3 structured mutations (duplicate / retarget / swap / re-hash / "
+            "proof drop-insert-swap-replace-rotate / nested / extra target / length mismatch) or a free tuple; targets include 2^k, 2^k-1, 2^63, 2^64-1 and "
+            "positions just past the forest. Oracle: no panic; loop-iteration budget 10^4+10^3*len(input) per call via the verifTick hooks; Stump.Update "
+            "leaves NumLeaves and roots unchanged when it returns an error. Non-trivial: the claim passes the length check (so it is rejected for another "
+            "reason, or accepted). Distinct by case hash.",
+    "assumptions": COMMON_ASSUME + ["'polynomial time' is decided as: every instrumented loop stays within 10^4+10^3*len(input) iterations per call, with a 120 s per-case watchdog as backstop",
+                                    "well-formed stump: len(Roots)=popcount(NumLeaves), NumLeaves<=2^63 (forests have at most 63 rows)"],
+}
+MANIFEST_TEXT["C04"] = {
+    "level_text": "Exploration: generated hostile claims against generated states, with a deterministic in-process termination oracle (loop-tick budget through "
+                  "build-tag hooks) so that a non-terminating input is a shrinkable failure rather than a timeout. The input space is unbounded; sampled with "
+                  "boundary constants and structured mutation, thorough tier adds coverage-guided native fuzzing.",
+    "design_ref": "DESIGN.md section 6 C04",
+    "level_note": TRUST + " Termination is judged by an iteration budget on the instrumented loops and a per-case watchdog, not by asymptotic analysis.",
+    "technique": "property-based testing (rapid) with structured mutation + boundary values; loop-budget hooks; native go fuzzing in the thorough tier",
+}
+NOT_APPLICABLE[:] = [e for e in NOT_APPLICABLE if e["property_id"] not in CHECKS]
